@@ -231,7 +231,7 @@ func vsigThread(sigOp byte) *vsigEnv {
 		_ = in.PreviousTxIDAdd(vnondetBytes("txid", 32, 32))
 		tx.Inputs = append(tx.Inputs, in)
 	}
-	{
+	for i := 0; i < 1+vparam("OUT2", 0); i++ {
 		ls := bscript.Script(vnondetBytes("outscript", 1, 1))
 		tx.Outputs = append(tx.Outputs, &bt.Output{Satoshis: vnondetU64("outsats"), LockingScript: &ls})
 	}
@@ -329,6 +329,9 @@ func VH_C06_CheckSig() {
 	extBefore := vcopy(e.tx.ExtendedBytes())
 	err := th.executeOpcode(th.scripts[1][th.scriptOff])
 	vassert(vbytesEq(e.tx.ExtendedBytes(), extBefore), "C08: a signature check leaves the caller's transaction, incl. the recorded spent output, unchanged")
+	for _, o := range e.tx.Outputs {
+		vassert(o.LockingScript != nil && len(*o.LockingScript) == 1, "C08: a signature check leaves the caller's outputs alone")
+	}
 	nullfail := th.flags&scriptflag.VerifyNullFail != 0
 	switch {
 	case valid:
